@@ -824,7 +824,7 @@ def _check_rtlil(c):
     if len(inits) != 1 or len(wrs) != nw or len(rds) != len(c["rports"]):
         return bad + [f"cell counts {len(inits)} {len(wrs)} {len(rds)}"]
     _, par, con = inits[0]
-    raw = [(v & ((1 << w) - 1)) for v in c["init"]] + [0] * (depth - len(c["init"]))
+    raw = [(v & ((1 << w) - 1)) for v in c["init"]] + [_dflt(c["shape"])] * (depth - len(c["init"]))
     exp = "".join(format(v, f"0{w}b") for v in reversed(raw)) if w else ""
     got = con["DATA"].split("'")[1] if "'" in con["DATA"] else ""
     if (par["ABITS"], par["WIDTH"], par["WORDS"], par["PRIORITY"]) != ("0", str(w), str(depth), "0") or got != exp:
